@@ -21,6 +21,10 @@ RULE = ("a scenario is a tiny world (1-3 samples, 3-8 biallelic sites: SNVs, ins
         "unphase; every phase step is run a second time with the other tag on the same input. Histories: all op sequences over "
         "{unphase, phase x tag x targets x only-snvs} emitted by TLC from VcfHistory (2 samples up to length 2-3, 1 sample up to "
         "length 3-4), plus seeded random longer ones, plus single steps with 1-7 interleaved phase sets in the phase-input VCF. "
+        "Every phase step with a phased VCF as phase input is run once more on a three-contig variant file (contig names and order "
+        "drawn from a pool, every contig a shifted copy of the current file) with one phase-input file or one per sample, each with "
+        "its own contig layout: a non-empty subset of the contigs in the same or another order, optionally with a contig the "
+        "variant file lacks in between. "
         "Non-trivial = some phase step wrote >= 2 heterozygous variants into one phase set for a sample that already carried phase "
         "information (possibly at a record the step skips) or whose GT was unsorted, or reproduced a phase-input VCF with >= 2 sets")
 ASSUMPTIONS = [
@@ -31,6 +35,8 @@ ASSUMPTIONS = [
     "super-read alleles are 0/1 and differ; set name = component + 1",
     "DecodesCleanly is not demanded when a non-target sample brought the other encoding along (mixture inherited from the input)",
     "VcfReproduces is demanded for sets with >= 2 heterozygous variants shared by both files at records the run supports and at most 7 overlapping sets (14 pseudo reads)",
+    "VcfReproducesAnyContigLayout demands the same per contig of a multi-contig variant file for every sample whose phase-input file has "
+    "records for that contig; which contigs a phase-input file covers is known from the construction of the layout",
     "which records a run does not support (multi-ALT, second record at a position, indel under --only-snvs) is known from the construction "
     "of the world; P has no statement there and NoStalePhase demands that the output has none either for target samples",
 ]
@@ -349,6 +355,15 @@ def scenarios(ctx):
                         c[0] = rng.choice(["0/0", "1/1", "0/1"])       # a wrong call the reads will overrule
         scs.append({"kind": "twin", "pre": "", "world": w, "hist": []})
     ctx.notes["distrust_twin_runs"] = nt
+    # ---- every phase step that uses a phased VCF as phase input is ALSO run on a three-contig variant file with phase-input
+    #      files whose contig layout is drawn independently (drawn here, after everything else, from the seeded generator) ----
+    nl = 0
+    for sc in scs:
+        for o in sc["hist"]:
+            if o.get("op") == "P" and o.get("inp", "bam") != "bam":
+                o["lay"] = rng.getrandbits(30)
+                nl += 1
+    ctx.notes["phase_steps_with_contig_layout_run"] = nl
     return scs
 
 
@@ -424,6 +439,79 @@ def decode_two_contigs(path, samples, primary, only_snvs=False, shift=0):
         return {"exc": "", "ph1": out["chr1"], "ph2": out["chr2"]}
     except Exception as e:
         return {"exc": type(e).__name__, "ph1": [], "ph2": []}
+
+
+CONTIG_NAMES = ["chr2", "chr5", "chr10", "chr1", "chrX", "10", "2", "MT", "scaffold_7", "chr1_alt"]
+
+
+def _shifted(f, shift):
+    """fields of a record line moved by shift (POS and the PS / HP values, which name positions)"""
+    f = list(f)
+    f[1] = str(int(f[1]) + shift)
+    if shift:
+        keys = f[8].split(":")
+        for k in range(9, len(f)):
+            vals = f[k].split(":")
+            for kk, key in enumerate(keys):
+                if kk < len(vals) and vals[kk] not in (".", ""):
+                    if key == "PS" and vals[kk].isdigit():
+                        vals[kk] = str(int(vals[kk]) + shift)
+                    elif key == "HP":
+                        vals[kk] = ",".join(f"{int(e.split('-')[0]) + shift}-{e.split('-')[1]}" if "-" in e else e
+                                            for e in vals[kk].split(","))
+            f[k] = ":".join(vals)
+    return f
+
+
+def _write_contig_layout(src, dst, layout):
+    """the records of the single-contig file src once per entry (contig name, shift) of layout, in that order; the header
+    defines exactly these contigs in that order"""
+    with open(src) as fh:
+        lines = fh.read().splitlines()
+    meta = [x for x in lines if x.startswith("##") and not x.startswith("##contig")]
+    clen = next((x for x in lines if x.startswith("##contig=<ID=chr1,")), "##contig=<ID=chr1,length=100000>")
+    recs = [x.split("\t") for x in lines if x and not x.startswith("#")]
+    with open(dst, "w") as fo:
+        fo.write("\n".join(meta + [clen.replace("ID=chr1,", f"ID={name},") for name, _ in layout]) + "\n")
+        fo.write(next(x for x in lines if x.startswith("#CHROM")) + "\n")
+        for name, shift in layout:
+            for f in recs:
+                g = _shifted(f, shift)
+                g[0] = name
+                fo.write("\t".join(g) + "\n")
+
+
+def draw_layouts(seed, nfiles):
+    """contigs of the variant file (three names in an arbitrary order, each with its own coordinate shift) and, per phase-input
+    file, its contig layout: a non-empty subset of these contigs, in the same or in another order, possibly with a contig
+    the variant file does not have somewhere in between"""
+    import random
+    rng = random.Random(seed)
+    names = rng.sample(CONTIG_NAMES, 4)
+    V = [(n, 5 * k) for k, n in enumerate(names[:3])]
+    files = []
+    for _ in range(nfiles):
+        lay = [c for c in V if rng.random() < 0.75] or [rng.choice(V)]
+        if rng.random() < 0.6:
+            rng.shuffle(lay)
+        if rng.random() < 0.3:
+            lay.insert(rng.randrange(len(lay) + 1), (names[3], 11))
+        files.append(lay)
+    return V, files
+
+
+def _layout_class(V, files):
+    order = [n for n, _ in V]
+    kinds = set()
+    for lay in files:
+        mine = [n for n, _ in lay if n in order]
+        if mine != [n for n in order if n in mine]:
+            kinds.add("contigs in another order than in the variant file")
+        elif any(n not in mine and any(order.index(m) > order.index(n) for m in mine) for n in order):
+            kinds.add("no records for a contig that lies before a covered one")
+        else:
+            kinds.add("same order")
+    return "; ".join(sorted(kinds))
 
 
 def drive(sc):
@@ -520,6 +608,34 @@ def _drive(sc, tmp):
         evs.append(e)
         return None if exc else dst
 
+    def layout_run(src, d, op):
+        """the phase step op on a THREE-CONTIG variant file (every contig a shifted copy of file src) with phase-input files whose
+        contig layouts are drawn independently of the variant file's: which phase sets must come back on a contig for a sample
+        depends only on whether the file that phases the sample has records for that contig"""
+        enc = op["inp"][4:]
+        per_sample = len(samples) > 1 and op["lay"] % 2 == 1
+        V, lays = draw_layouts(op["lay"], len(samples) if per_sample else 1)
+        vin, vout = os.path.join(tmp, f"lay_in{d}.vcf"), os.path.join(tmp, f"lay_out{d}.vcf")
+        _write_contig_layout(paths[src], vin, V)
+        ginputs = []
+        for k, lay in enumerate(lays):
+            gp = os.path.join(tmp, f"lay_g{d}_{k}.vcf")
+            _write_contig_layout(gpaths[f"{enc}:{k}"] if per_sample else gpaths[enc], gp, lay)
+            ginputs.append(gp)
+        snvs = bool(op.get("snvs"))
+        exc = H.run_phase_file(vin, vout, op["tag"], [samples[t - 1] for t in op["T"]], ginputs, reference=False, only_snvs=snvs)
+        e = {"ev": "PhaseLayout", "src": src, "tag": op["tag"], "targets": list(op["T"]), "exc": exc, "snvs": snvs,
+             "skip": [bool(r["skip"]) or (snvs and r["indel"]) for r in roles], "g": gproj[enc], "contigs": [],
+             "layout": _layout_class(V, lays), "nfiles": len(lays)}
+        if not exc:
+            by = {}
+            for r in H.project_vcf(vout)[0]["recs"]:
+                by.setdefault(r["fixed"].split("\t")[0], []).append({"calls": r["calls"]})
+            for name, _ in V:
+                cov = [any(n == name for n, _ in lays[k if per_sample else 0]) for k in range(len(samples))]
+                e["contigs"].append({"cov": cov, "out": {"recs": by.get(name, [])}})
+        return e
+
     for op in sc["hist"]:
         if op["op"] == "U":
             dst = new()
@@ -563,6 +679,8 @@ def _drive(sc, tmp):
                     a_c = {"exc": "", "ph": canon(ea["dec"]["ph"])}
                     evs.append({"ev": "Concat", "a": a_c, "b": a_c,
                                 "ab": dict(ab, ph1=canon(ab["ph1"]), ph2=canon(ab["ph2"])) if not ab["exc"] else ab})
+            if d1 is not None and op["inp"] != "bam" and "lay" in op:
+                evs.append(layout_run(cur, d1, op))
             if d1 is not None and d2 is not None:
                 cat = os.path.join(tmp, f"cat{d1}.vcf")
                 _concat_as_contigs(paths[d1], paths[d2], cat)
@@ -640,6 +758,23 @@ def _cause(e, src, s, i):
     return f"tag {e['tag']}, source call {'|' if c['ph'] else '/'}.join({c['gt']})"
 
 
+def _layout_lost(e, files):
+    """a set of g with >= 2 usable members on a covered contig that the output lacks (wording of signatures only; TLC judged)"""
+    src = files.get(e["src"])
+    for s in e["targets"]:
+        sets = {}
+        for i, gr in enumerate(e["g"]["recs"]):
+            st = _dec("PS", gr["calls"][s - 1]) or _dec("HP", gr["calls"][s - 1])
+            gt = src["recs"][i]["calls"][s - 1]["gt"] if src and i < len(src["recs"]) else []
+            if st and not e["skip"][i] and sorted(gt) == [0, 1]:
+                sets.setdefault(st["block"], []).append(i)
+        for c in e["contigs"]:
+            if c["cov"][s - 1] and any(len(B) >= 2 and not _dec(e["tag"], c["out"]["recs"][i]["calls"][s - 1])
+                                       for B in sets.values() for i in B if i < len(c["out"]["recs"])):
+                return True
+    return False
+
+
 def signature(sc, events, clause):
     files = _files_of(events)
     if clause == "Returns":
@@ -647,6 +782,10 @@ def signature(sc, events, clause):
             if e.get("exc"):
                 return f"{e['ev'].lower()} {e.get('tag', '')} raised {e['exc']}"
         return "crash: " + str(events[-1].get("where", ""))
+    if clause == "VcfReproducesAnyContigLayout":
+        lay = [e for e in events if e.get("ev") == "PhaseLayout" and not e["exc"]]
+        for e in sorted(lay, key=lambda e: not _layout_lost(e, files)):
+            return f"phase-input VCF ({e['nfiles']} file(s)) with {e['layout']}"
     phases = [e for e in events if e.get("ev") == "Phase" and not e["exc"] and e["src"] in files]
     for e in phases:
         src, out = files[e["src"]], e["out"]
@@ -723,7 +862,8 @@ MANIFEST = {
             "multi-ALT / duplicate-position records, phased VCF with interleaved sets as alternative phase input), "
             "running every phase step with both tags through run_whatshap, recording the phasing handed to PhasedVcfWriter.write, the "
             "raw GT/PS/HP text of the output and what VcfReader(phases=True) decodes. TLC judges every step: RoundTrip, TagEquivalence, "
-            "NoStalePhase, DecodesCleanly, VcfReproduces.",
+            "NoStalePhase, DecodesCleanly, VcfReproduces; and VcfReproducesAnyContigLayout for the repetition of every phased-VCF step "
+            "on a three-contig variant file with phase-input files whose contigs are reordered, partly missing or supplemented.",
     "note": "trusted: TLC, VcfModel.tla decoders as the reading of the conventions, the driver's text projection and the wrapper that "
             "records PhasedVcfWriter.write's arguments; diploid single-individual phasing only (no pedigree), <= 3 samples x 16 sites",
     "technique": "TLA+ state machine of commands model-checked with TLC (incl. negative control); TLC-emitted histories replayed on real files through the real CLI functions; TLC trace validation",
